@@ -420,7 +420,7 @@ def make_case(seed, n):
     return {"kind": "encrypt-outputs" if n % 10 == 9 else "hierarchy", "n": n, "seed": seed}
 
 
-def run_shard(rec, shard, nshards):
+def _run_shard_workload(rec, shard, nshards):
     common.loop(rec, shard, nshards, N[rec.tier], CAP[rec.tier], lambda n: run_case(rec, make_case(rec.seed, n)))
     if shard == 0:
         observe_hex_lookalike(rec)
@@ -484,3 +484,14 @@ def canaries(rec):
         out.append((name, bad != good))
     out.append(("reference is deterministic", refenc.Encoder(read=lambda p: files[p]).envelope(d) == good))
     return out
+
+
+FAULT_PLANE_OPS = ('create',)
+
+
+def run_shard(rec, shard, nshards):
+    _run_shard_workload(rec, shard, nshards)
+    if shard == 5 % nshards:
+        # complete enumeration of the single file-boundary faults of this property's operations (faultplane.py)
+        from . import faultplane
+        faultplane.run(rec, ID, FAULT_PLANE_OPS)
